@@ -432,6 +432,9 @@ func loadFacts() {
 		s3Enabled = false
 		s3Note = fmt.Sprintf("S3 switched off: the instrumented package uses synchronisation primitives (%v, %d go statements, %d select) which the package-state rule does not model; S1/S2/S4/S5 remain armed; Mutex/RWMutex Lock/RLock and Once.Do are rewritten to cooperative versions", facts.SyncUses, facts.GoStmts, facts.SelectStmts)
 	}
+	if facts.GoStmts > 0 {
+		s3Note += "; the package starts goroutines of its own: hooks are serialised by a mutex, real locks are used, runs are not replayable bit for bit and the determinism self-check is skipped"
+	}
 	if len(facts.Unmodelled) > 0 {
 		noPreemption = true
 		s3Note += fmt.Sprintf("; PREEMPTION SWITCHED OFF: the package blocks in ways the scheduler does not model (%v), tasks run to completion one after another", facts.Unmodelled)
